@@ -3,6 +3,7 @@ import MechVerif.Driver.C07
 import MechVerif.Driver.C15
 import MechVerif.Driver.C01
 import MechVerif.Driver.C03
+import MechVerif.Driver.C04
 open MechVerif.Driver
 
 def dispatch (line : String) : String :=
@@ -13,6 +14,7 @@ def dispatch (line : String) : String :=
     | some "range" => runC15 fields obs
     | some "binop" | some "unop" => runC01 fields obs
     | some "index" => runC03 fields obs
+    | some "assign" => runC04 fields obs
     | some "crc" | some "dmg" | some "sweep" | some "rt" | some "instrs" => runC07 fields obs
     | _ => ("bad-proto", "bad-proto", "-")
   m ++ "\t" ++ v ++ "\t" ++ r
